@@ -27,6 +27,12 @@ pub fn pc_gens_for<G: AffineRepr>(b: &Bases) -> PedersenGens<G> {
     }
 }
 
+/// Number of parties of a store, derived from its history (1..3): party
+/// capacity is a knob no proof may depend on (only party 0 is used).
+pub fn parties_for(history: &[usize]) -> usize {
+    1 + (history.iter().sum::<usize>() + history.len()) % 3
+}
+
 /// A generator store built through a history of capacity increases.
 pub fn gens_with_history<G: AffineRepr>(history: &[usize], parties: usize) -> BulletproofGens<G> {
     let mut it = history.iter();
